@@ -821,7 +821,7 @@ func (g *gen) genParamSetup(bi int) {
 		set("pos/MinSignedPerWindow", d)
 	}
 	if r.Chance(0.8) {
-		ut := []time.Duration{1, time.Second, time.Minute, 10 * time.Minute, 3 * time.Hour, 21 * 24 * time.Hour}[r.Intn(6)]
+		ut := []time.Duration{1, time.Second, time.Minute, 10 * time.Minute, 3 * time.Hour, 21 * 24 * time.Hour, 0}[r.Intn(7)]
 		set("pos/UnstakingTime", ut)
 	}
 	if r.Chance(0.5) {
@@ -1256,10 +1256,14 @@ func (g *gen) paramValue(k string) string {
 	r := g.r
 	switch k {
 	case "pos/UnstakingTime":
-		return ParamJSON([]time.Duration{1, time.Second, time.Hour, 21 * 24 * time.Hour}[r.Intn(4)])
+		return ParamJSON([]time.Duration{1, time.Second, time.Hour, 21 * 24 * time.Hour, 0}[r.Intn(5)])
 	case "pos/MaxEvidenceAge", "pos/DowntimeJailDuration":
 		return ParamJSON([]time.Duration{time.Minute, 5 * time.Minute, time.Hour}[r.Intn(3)])
 	case "pos/MaxValidators":
+		if r.Chance(0.25) {
+			// far more seats than candidates, in numbers whose low 16 or 32 bits are small
+			return ParamJSON([]uint64{65536, 65537, 65538, 131072, 4294967297, 1 << 40}[r.Intn(6)])
+		}
 		return ParamJSON(uint64(r.Range(1, 6)))
 	case "auth/MaxMemoCharacters":
 		return ParamJSON(uint64([]int{256, 1, 300, 75}[r.Intn(4)]))
